@@ -40,6 +40,7 @@ def run(ctx):
         dcases = [(prog, '0' * p1 + '1' * w1 + '0000000001' * 60, ('2', '8', 'o')) for prog in DPROGS for p1 in range(60, 420, 4 if ctx.quick() else 1) for w1 in (4, 9, 15)]
         driver = build_model_driver(ctx, 'resizeproto', 'ExtractResizeProto.v', 'resizeproto_driver.ml')
         X.run_cases(ctx, 'released bucket tables are never touched again', ximpl, dcases, proto_driver=driver)
+        X.run_partitioned_faults(ctx, 'bucket tables released by a partitioned shrink with thread-creation faults are never touched again', 'C07p', 120 if ctx.quick() else 1500, proto_driver=driver)
         X.run_cases(ctx, 'the table itself after cds_lfht_destroy (work-queue thread still inside its resize work item)', ximpl, X.lazy_destroy_cases(ctx), nontrivial=lambda raw: ' free tb' in raw)
     return finish(ctx, trusted=L.TRUSTED + ['"no access after a grace period": theorem on the pc-level model without resize (Lfht/LfhtDead.v: unlinked stays unlinked, a thread without references never reaches the node); '
                   'the resize paths (their garbage collection runs as an RCU reader) are covered by the quarantine oracle only'],
